@@ -48,14 +48,16 @@ class Ctx:
         d = rta.run_oracle("debug", cases, tag)
         r = rta.run_oracle("release", cases, tag) if release else {}
         m = {}
-        if model:
+        # arrival bounds outside the Coq model (floating-point Poisson approximation): implementation only
+        mcases = [(i, q) for i, q in cases if "apoisson" not in sx(q)]
+        if model and mcases:
             # The debug-only brute-force cross-check inside fixed_point::search is modelled (dbg = true) but
             # costs `limit` evaluations of the workload per search; C08_search_profile_independent /
             # search_dbg_irrelevant prove it never fires for monotone workloads, so the dedicated and
             # ECRTS'19 analyses are evaluated with dbg = false except for a 1-in-8 sample.  rr/bw (whose
             # debug check is the brute-force step enumeration) always run with dbg = true.
             HEAVY = ("fp_fp", "fp_np", "fp_lp", "fp_fnp", "edf_fp", "edf_np", "edf_lp", "edf_fnp", "fifo", "es", "timer", "pp", "chain")
-            m, errs = rta.run_model(cases, tag, dbg=lambda i, q: not (q[0] in HEAVY and i % 8 != 0))
+            m, errs = rta.run_model(mcases, tag, dbg=lambda i, q: not (q[0] in HEAVY and i % 8 != 0))
         out = []
         for i, q in cases:
             dv, rv, mv = d.get(i), r.get(i), m.get(i)
@@ -89,7 +91,8 @@ class Ctx:
             if dv and dv[0] == "panic": st["impl_panics"] += 1
             if dv and dv[0] == "timeout": st["impl_timeouts"] += 1
             if mv is None:
-                st["model_timeouts"] += 1
+                if "apoisson" in sx(q): st["impl_only"] = st.get("impl_only", 0) + 1
+                else: st["model_timeouts"] += 1
                 continue
             dv, rv, mv = self._canon(q, dv), self._canon(q, rv), self._canon(q, mv)
             bad = None
@@ -438,6 +441,14 @@ class C10(Prop):
                 sub = all(tab[x + y] <= tab[x] + tab[y] for x in range(len(tab)) for y in range(len(tab) - x))
                 ctx.oracle("subadditive", sub, "periodic/sporadic bound is not sub-additive: %s" % (tab,), [q], cls="oracle:subadditive")
             jj, j = rows[i + 2][1], rows[i + 3][1]
+            if j and j[0] == "l":
+                jab = ["jitter", meta[i + 3][3] + meta[i + 3][4], ab]
+                es = events_for(jab, rng, 3 * H + 10, True)
+                m = max_window_counts(es, H)
+                bad = [d for d in range(H + 1) if m[d] > j[1][d]]
+                ctx.oracle("delayed_sequences_are_covered", not bad,
+                           "a sequence delayed by at most the added jitter has %s events in a window of length %s but the jittered clone says %s" %
+                           ([m[d] for d in bad[:1]], bad[:1], [j[1][d] for d in bad[:1]]), [rows[i + 3][0]], cls="oracle:undercount_jittered", extra=dict(events=es[:100]))
             ctx.oracle("jitter_composes", jj == j, "adding jitter %d then %d differs from adding %d: %s vs %s" % (meta[i + 2][3], meta[i + 2][4], meta[i + 2][3] + meta[i + 2][4], rta.show(jj), rta.show(j)),
                        [rows[i + 2][0], rows[i + 3][0]], cls="oracle:jitter_compose")
         finalize(ctx)
@@ -466,6 +477,15 @@ class C11(Prop):
             if rng.random() < 0.06:
                 d = gen.gen_dmin(rng, True, True); ab = ["curve", ["dmin", d + [d[-1]]]]
             H = rng.choice([rng.randint(0, 30), rng.randint(20, 150)])
+            qs += [["steps", ab, H, 100000], ["natab", ab, H], ["bfsteps", ab, H]]
+            meta += [("ab", ab, H)] * 3
+        # bounds that admit no arrival in short intervals (number_arrivals(1) = 0): low-rate approximated Poisson,
+        # plain, propagated and summed (implementation-only: outside the Coq model)
+        for _ in range(ctx.scale(40, 400)):
+            ap = ["apoisson", rng.randint(1, 30), rng.choice([1000, 10000, 100000]), 1, rng.choice([100, 1000])]
+            r = rng.random()
+            ab = ap if r < 0.25 else ["propagated", rng.randint(0, 80), ap] if r < 0.6 else ["jitter", rng.randint(0, 80), ap] if r < 0.8 else ["sum", [ap, gen.gen_sporadic(rng)]]
+            H = rng.randint(20, 400)
             qs += [["steps", ab, H, 100000], ["natab", ab, H], ["bfsteps", ab, H]]
             meta += [("ab", ab, H)] * 3
         for _ in range(ctx.scale(120, 1500)):
@@ -514,7 +534,7 @@ class C16(Prop):
         rng = ctx.rng
         qs = []; meta = []
         for _ in range(ctx.scale(150, 2000)):
-            rb = gen.gen_rb(rng, rng.choice([0, 1, 2]), False, families.AB_ANALYSIS + ["never"], True)
+            rb = gen.gen_rb(rng, rng.choice([0, 1, 2]), False, families.AB_ANALYSIS + ["never"], True, positive=False)
             d = rng.choice([rng.randint(0, 20), rng.randint(10, 120)])
             n = rng.randint(0, 8)
             base = len(qs)
@@ -581,14 +601,18 @@ class C14(Prop):
         rng = ctx.rng
         qs = []; meta = []
         for _ in range(ctx.scale(150, 2000)):
-            cm = gen.gen_cm(rng)
+            cm = gen.gen_cm(rng, False, positive=False)
             N = rng.randint(1, 30)
             base = len(qs)
             qs += [["cost", cm, 0], ["jobcosts", cm, N]] + [["cost", cm, k] for k in range(1, N + 1)] + [["least", cm, k] for k in (1, max(1, N // 2), N)]
             meta.append(("cm", base, cm, N))
         for _ in range(ctx.scale(150, 2000)):
-            costs = [rng.randint(1, 12) for _ in range(rng.randint(1, 16))]
-            if rng.random() < 0.4: costs[-1] = rng.randint(10, 30)       # expensive run at the very end
+            costs = [rng.choice([0, 0, rng.randint(1, 12), rng.randint(1, 12), rng.randint(1, 12)]) if rng.random() < 0.5 else rng.randint(1, 12)
+                     for _ in range(rng.randint(1, 16))]
+            r = rng.random()
+            if r < 0.3: costs[-1] = rng.randint(10, 30)                  # expensive run at the very end
+            elif r < 0.5: costs[0] = rng.randint(10, 30)                 # ... or at the very beginning, followed by cheap / zero-cost jobs
+            if rng.random() < 0.3 and len(costs) >= 2: costs[1] = 0
             k = rng.randint(1, 6)
             w = ["cfrom_trace", costs, k]
             N = len(costs) + rng.randint(0, 6)
@@ -926,16 +950,21 @@ def ded_exhaustive(q, tua_tab, other_tabs):
     if k == "fifo": return exh_fifo(tua, limit)
     raise ValueError(k)
 
-def gen_ded_queries(rng, n, abkinds=None):
+def gen_ded_queries(rng, n, abkinds=None, tight=0.0):
+    """tight: fraction of queries whose divergence limit is drawn small (1..40), i.e. close to the busy-window
+    length and the per-offset fixed points, where off-by-one slips in limit/offset handling show"""
     qs = []
     while len(qs) < n:
         r = rng.random()
-        if r < 0.42: qs += families.q_fp(rng, None, abkinds)
-        elif r < 0.84: qs += families.q_edf(rng, None, abkinds)
-        else: qs += families.q_fifo(rng, abkinds)
+        if r < 0.42: q = families.q_fp(rng, None, abkinds)
+        elif r < 0.84: q = families.q_edf(rng, None, abkinds)
+        else: q = families.q_fifo(rng, abkinds)
+        if rng.random() < tight:
+            for x in q: x[-1] = rng.randint(1, 40)
+        qs += q
     return qs
 
-def run_with_tables(ctx, queries):
+def run_with_tables(ctx, queries, model=True):
     """runs the analyses and, in the same batch, the sntab of every RBF involved (horizon limit + 1)"""
     qs = []; index = []
     for q in queries:
@@ -945,7 +974,7 @@ def run_with_tables(ctx, queries):
         qs.append(q); qs.append(["sntab", tua, H])
         for o in others: qs.append(["sntab", o, H])
         index.append((base, len(others)))
-    rows = ctx.run(qs)
+    rows = ctx.run(qs, model=model)
     out = []
     for (base, no), q in zip(index, queries):
         tabs = [rows[base + 1 + i][1] for i in range(no + 1)]
@@ -962,10 +991,12 @@ class C06(Prop):
     assumptions = ["the task under analysis can release a job (rbf(1) > 0); otherwise the search space is empty and the analyses return Ok(0)"]
     def run(self, ctx):
         rng = ctx.rng
-        queries = gen_ded_queries(rng, ctx.scale(450, 6000))
+        queries = gen_ded_queries(rng, ctx.scale(350, 6000), None, 0.3)
         rows, packed = run_with_tables(ctx, queries)
         ctx.correspond(rows)
-        for ((q, dv, rv, mv), tabs) in packed:
+        # a larger, cheaper stream evaluated by the implementation and the exhaustive oracle only (no Coq evaluation)
+        rows_o, packed_o = run_with_tables(ctx, gen_ded_queries(rng, ctx.scale(3000, 30000), None, 0.5), model=False)
+        for ((q, dv, rv, mv), tabs) in packed + packed_o:
             if any(t is None or t[0] != "l" for t in tabs): continue
             ctx.dist("analysis", q[0])
             if tabs[0][1][1] == 0: ctx.dist("tua", "never_arrives"); continue
@@ -989,9 +1020,10 @@ class C19(Prop):
         qs = []; meta = []
         def pair(name, a, b):
             qs.append(a); qs.append(b); meta.append((name, len(qs) - 2))
-        for _ in range(ctx.scale(110, 1500)):
+        for _ in range(ctx.scale(90, 1500)):
             tua, hp = families.gen_ded_system(rng, families.AB_ANALYSIS)
-            C = tua[2][1]; ab = tua[1]; B = rng.choice([0, rng.randint(0, 6)]); limit = families.pick_limit(rng)
+            C = tua[2][1]; ab = tua[1]; B = rng.choice([0, rng.randint(0, 6)])
+            limit = families.pick_limit(rng) if rng.random() < 0.55 else rng.randint(1, 40)      # tight limits: Ok/Err agreement
             pair("fp_lp(last=1)=fp_fnp", ["fp_lp", ab, C, 1, B, hp, limit], ["fp_fnp", tua, B, hp, limit])
             pair("fp_lp(last=1,B=0)=fp_fp", ["fp_lp", ab, C, 1, 0, hp, limit], ["fp_fp", tua, hp, limit])
             pair("fp_lp(last=C)=fp_np", ["fp_lp", ab, C, C, B, hp, limit], ["fp_np", ab, C, B, hp, limit])
@@ -1002,7 +1034,7 @@ class C19(Prop):
             pair("edf_lp(segs=C)=edf_np", ["edf_lp", [ab, C, D, C], [[o, d, o[2][1]] for o, d in zip(hp, od)], limit], ["edf_np", [ab, C, D], [[o[1], o[2][1], d] for o, d in zip(hp, od)], limit])
         # NP-EDF with equal deadlines vs FIFO; event source vs FIFO
         nmeta = []
-        for _ in range(ctx.scale(90, 1200)):
+        for _ in range(ctx.scale(60, 1200)):
             ts = gen.gen_taskset(rng, rng.randint(1, 4), rng.choice([0.3, 0.6, 0.9, 1.1]), families.AB_EXACT, True, True)
             D = rng.randint(1, 100); limit = families.pick_limit(rng)
             base = len(qs)
@@ -1012,7 +1044,7 @@ class C19(Prop):
             qs.append(["es", ["dedicated"], ["agg", ts], limit])
             nmeta.append((base, len(ts)))
         smeta = []
-        for _ in range(ctx.scale(110, 1500)):
+        for _ in range(ctx.scale(70, 1500)):
             P = rng.randint(1, 20)
             q = families.q_ros(rng)[0]
             base = len(qs)
@@ -1388,7 +1420,7 @@ class C17(Prop):
     def run(self, ctx):
         rng = ctx.rng
         qs = []; meta = []
-        n = ctx.scale(330, 5000)
+        n = ctx.scale(200, 5000)
         while len(meta) < n:
             r = rng.random()
             if r < 0.6: base = gen_ded_queries(rng, 1, ["periodic", "sporadic", "curve", "extrap", "propagated", "jitter"])[0]
@@ -1399,6 +1431,18 @@ class C17(Prop):
             qs += [base, hard]; meta.append(how)
         rows = ctx.run(qs)
         ctx.correspond(rows)
+        # a larger stream of pairs evaluated by the implementation only (no Coq evaluation)
+        qs2 = []
+        n2 = ctx.scale(2500, 30000)
+        while len(qs2) < 2 * n2:
+            r = rng.random()
+            if r < 0.7: base = gen_ded_queries(rng, 1, ["periodic", "sporadic", "curve", "extrap", "propagated", "jitter"], 0.3)[0]
+            elif r < 0.85: base = families.q_ecrts(rng, None, True)[0]
+            else: base = families.q_rtss(rng, None, True)[0]
+            hard, how = harden_query(base, rng)
+            if how == "none": continue
+            qs2 += [base, hard]; meta.append(how)
+        rows = rows + ctx.run(qs2, model=False)
         for i, how in enumerate(meta):
             a, b = rows[2 * i], rows[2 * i + 1]
             ctx.dist("hardening", how); ctx.dist("analysis", a[0][0])
@@ -1614,3 +1658,172 @@ class C07(Prop):
                            [q], cls=cls)
         finalize(ctx)
 KNOWN_PREDICATES["C07-ecrts19-pruning"] = lambda v: v.get("cls") == "oracle:exhaustive:ecrts19_pruning"
+
+# ============================================================================= C04 / C05 (executor simulation oracles)
+def supply_pattern(sb, horizon, rng=None, worst=True):
+    if sb[0] == "dedicated": return [True] * horizon
+    if sb[0] == "periodic_s": Q, D, P = sb[1], sb[2], sb[2]
+    else: Q, D, P = sb[1], sb[2], sb[3]
+    if worst or rng is None: return sim.worst_supply(Q, D, P, horizon)
+    s = [False] * horizon
+    for k in range(horizon // P + 1):
+        slots = rng.sample(range(D), Q)
+        for x in slots:
+            if k * P + x < horizon: s[k * P + x] = True
+    return s
+
+def fifo_under_supply(jobs, supply, horizon):
+    """jobs: list of (arr, cost, task); FIFO with the victim losing ties is handled by the caller's ordering"""
+    order = sorted(range(len(jobs)), key=lambda k: (jobs[k][0], jobs[k][3]))
+    left = [j[1] for j in jobs]; done = [None] * len(jobs)
+    qi = 0; queue = []
+    for t in range(horizon):
+        while qi < len(order) and jobs[order[qi]][0] <= t: queue.append(order[qi]); qi += 1
+        if not supply[t] or not queue: continue
+        k = queue[0]; left[k] -= 1
+        if left[k] == 0: done[k] = t + 1; queue.pop(0)
+    return done
+
+def gen_ros_system(rng):
+    nt = rng.randint(0, 2); npol = rng.randint(1, 3) if nt else rng.randint(1, 4)
+    cbs = []
+    for i in range(nt): cbs.append(dict(kind="timer", prio=i, cost=rng.randint(1, 5), ab=gen.gen_sporadic(rng) if rng.random() < 0.5 else ["periodic", rng.randint(5, 60)]))
+    for i in range(npol): cbs.append(dict(kind="polled", prio=i, cost=rng.randint(1, 6), ab=gen.gen_sporadic(rng)))
+    sb = families.gen_ros_sb(rng)
+    # steer utilisation below the supply rate
+    u = sum(c["cost"] * gen.ab_rate(c["ab"]) for c in cbs); rate = gen.sb_rate(sb) * rng.choice([0.4, 0.6, 0.8, 0.95])
+    f = max(1.0, u / rate)
+    for c in cbs:
+        if c["ab"][0] == "periodic": c["ab"] = ["periodic", max(1, int(c["ab"][1] * f + 1))]
+        else: c["ab"] = ["sporadic", max(1, int(c["ab"][1] * f + 1)), c["ab"][2]]
+    return cbs, sb
+
+def ros_releases(cbs, rng, horizon, delay_cb=None, delay=0):
+    rel = []
+    for i, c in enumerate(cbs):
+        sh = delay if i == delay_cb else 0
+        for a in dense_arrivals(c["ab"], rng, horizon, True, sh): rel.append((a, i))
+    return rel
+
+@register("C04")
+class C04(Prop):
+    rule = ("executor workloads of 0-2 timers and 1-4 polled callbacks (sporadic/periodic arrivals with jitter, scalar costs) under dedicated / "
+            "periodic / constrained reservations, utilisation steered below the supply rate; event-source, timer and polling-point-callback "
+            "analyses; correspondence one-sided; oracle = FIFO-under-supply (event source) and a ROS 2 executor simulation (timers first, ready "
+            "set refreshed only when empty, non-preemptive) under the worst-case and random budget placements with synchronous and shifted "
+            "releases; non-trivial = distinct query whose result is not Ok(0)")
+    proof_status = "partial: event source proved sound (C04_event_source_sound); timer / polling-point / chain: characterisation (C07) and oracle only"
+    def run(self, ctx):
+        rng = ctx.rng
+        cases = []
+        for _ in range(ctx.scale(170, 2500)):
+            cbs, sb = gen_ros_system(rng)
+            limit = rng.randint(100, 600)
+            rbf = lambda c: ["rbf", c["ab"], ["scalar", c["cost"]]]
+            kind = rng.choice(["es", "timer", "pp"])
+            if kind == "timer" and not any(c["kind"] == "timer" for c in cbs): kind = "pp"
+            if kind == "es":
+                q = ["es", sb, ["agg", [rbf(c) for c in cbs]], limit]; tgt = None
+            elif kind == "timer":
+                tgt = rng.choice([i for i, c in enumerate(cbs) if c["kind"] == "timer"])
+                hp = [rbf(c) for i, c in enumerate(cbs) if c["kind"] == "timer" and c["prio"] < cbs[tgt]["prio"]]
+                B = max([c["cost"] for i, c in enumerate(cbs) if i != tgt and not (c["kind"] == "timer" and c["prio"] < cbs[tgt]["prio"])], default=0)
+                q = ["timer", sb, rbf(cbs[tgt]), ["agg", hp], B, limit]
+            else:
+                tgt = rng.choice([i for i, c in enumerate(cbs) if c["kind"] == "polled"])
+                q = ["pp", sb, rbf(cbs[tgt]), ["agg", [rbf(c) for i, c in enumerate(cbs) if i != tgt]], limit]
+            cases.append((q, cbs, sb, tgt))
+        rows = ctx.run([c[0] for c in cases])
+        ctx.correspond(rows, relation="one")
+        for (q, cbs, sb, tgt), (_, dv, rv, mv) in zip(cases, rows):
+            ctx.dist("analysis", q[0]); ctx.dist("supply", sb[0])
+            if not dv or dv[0] != "ok": ctx.dist("outcome", dv[0] if dv else "none"); continue
+            ctx.dist("outcome", "ok")
+            R = min(dv[1], rv[1]) if rv and rv[0] == "ok" else dv[1]
+            H = min(500, 2 * q[-1])
+            worst = 0; wit = None
+            for tr in range(2 if ctx.tier == "quick" else 5):
+                sup = supply_pattern(sb, H + 400, rng, worst=(tr == 0))
+                if q[0] == "es":
+                    for victim in range(len(cbs)):
+                        jobs = []
+                        for i, c in enumerate(cbs):
+                            for a in dense_arrivals(c["ab"], rng, H, True, 0): jobs.append((a, c["cost"], i, 1 if i == victim else 0))
+                        done = fifo_under_supply(jobs, sup, H + 400)
+                        for k, j in enumerate(jobs):
+                            if j[2] == victim and done[k] is not None and done[k] - j[0] > worst: worst = done[k] - j[0]; wit = dict(job=j[:3], response=worst)
+                else:
+                    dly = 0 if tr == 0 else rng.randint(0, 10)
+                    rel = ros_releases(cbs, rng, H, tgt, dly)
+                    for (cb, a, fin, src) in sim.executor(cbs, {}, rel, sup, H + 400):
+                        if cb == tgt and fin - a > worst: worst = fin - a; wit = dict(cb=cb, arrival=a, completion=fin)
+            ctx.oracle("no_run_exceeds_the_bound", worst <= R, "%s returns Ok(%d) but an instance has response time %d in the simulated executor/reservation" % (q[0], R, worst),
+                       [q], cls="oracle:unsafe:" + q[0], extra=dict(witness=wit, callbacks=[(c["kind"], c["prio"], c["cost"], c["ab"]) for c in cbs], supply=sb))
+        finalize(ctx)
+
+@register("C05")
+class C05(Prop):
+    rule = ("executor workloads mixing timers and polled callbacks (known and unknown priorities) under dedicated/periodic/constrained supplies; "
+            "for both rr and bw the analysis is iterated upwards from the WCETs, every callback as a singleton subchain, until the assumed-bound "
+            "vector reproduces itself; correspondence two-sided on the final queries; oracle = ROS 2 executor simulation (worst-case and random "
+            "budget placement, synchronous and shifted releases): no instance may exceed its self-consistent bound; non-trivial = distinct query "
+            "whose result is not Ok(0)")
+    proof_status = ("partial: the semantic soundness of Theorems 2-3 (RTSS'21) is NOT mechanised; proved: exactness of rr/bw w.r.t. their equations "
+                    "(C07), monotonicity of rr (C17), least-solution property of the searches (C08), supply theorems (C09)")
+    def run(self, ctx):
+        rng = ctx.rng
+        systems = []
+        for _ in range(ctx.scale(90, 1500)):
+            cbs, sb = gen_ros_system(rng)
+            for c in cbs:
+                c["k"] = "timer" if c["kind"] == "timer" else rng.choice(["pu", ["p", c["prio"]]])
+            systems.append(dict(cbs=cbs, sb=sb, which=rng.choice(["rr", "bw"]), limit=rng.randint(100, 500), R=[c["cost"] for c in cbs], state="iter"))
+        def queries(S):
+            wl = [[r, c["ab"], ["scalar", c["cost"]], c["k"]] for r, c in zip(S["R"], S["cbs"])]
+            return [[S["which"], S["sb"], wl, [i], S["limit"]] for i in range(len(S["cbs"]))]
+        for it in range(14):
+            act = [S for S in systems if S["state"] == "iter"]
+            if not act: break
+            qs = []; idx = []
+            for S in act:
+                q = queries(S); idx.append((S, len(qs), len(q))); qs += q
+            rows = ctx.run(qs, model=False, release=False)
+            for S, b, n in idx:
+                res = [rows[b + i][1] for i in range(n)]
+                if any(r is None or r[0] != "ok" for r in res): S["state"] = "diverged"; continue
+                new = [max(r[1], old) for r, old in zip(res, S["R"])]
+                if new == S["R"]: S["state"] = "fixed"
+                else: S["R"] = new
+        fixed = [S for S in systems if S["state"] == "fixed"]
+        ctx.dist("iteration", "fixed_point"); 
+        for S in systems: ctx.dist("iteration_outcome", S["state"])
+        qs = []; idx = []
+        for S in fixed:
+            q = queries(S); idx.append((S, len(qs), len(q))); qs += q
+        # plus multi-callback subchains for correspondence only
+        extra = []
+        for _ in range(ctx.scale(120, 1500)): extra += families.q_rtss(rng)
+        rows = ctx.run(qs + extra)
+        ctx.correspond(rows)
+        for S, b, n in idx:
+            cbs, sb = S["cbs"], S["sb"]
+            bounds = []
+            for i in range(n):
+                dv, rv = rows[b + i][1], rows[b + i][2]
+                bounds.append(dv[1] if dv and dv[0] == "ok" else None)
+            if any(x is None for x in bounds): continue
+            ctx.dist("analysis", S["which"]); ctx.dist("supply", sb[0])
+            H = 400
+            for tr in range(2 if ctx.tier == "quick" else 5):
+                sup = supply_pattern(sb, H + 400, rng, worst=(tr == 0))
+                tgt = rng.randrange(len(cbs)); dly = 0 if tr == 0 else rng.randint(0, 12)
+                rel = ros_releases(cbs, rng, H, tgt, dly)
+                worst = [0] * len(cbs)
+                for (cb, a, fin, src) in sim.executor(cbs, {}, rel, sup, H + 400):
+                    if a < H: worst[cb] = max(worst[cb], fin - a)
+                bad = [i for i in range(len(cbs)) if worst[i] > bounds[i]]
+                ctx.oracle("no_instance_exceeds_its_self_consistent_bound", not bad,
+                           "%s: self-consistent bounds %s but the simulated executor shows response times %s (callbacks %s, supply %s)" %
+                           (S["which"], bounds, worst, [(c["k"], c["cost"], c["ab"]) for c in cbs], sb),
+                           [rows[b + i][0] for i in bad[:1]], cls="oracle:unsafe:" + S["which"])
+        finalize(ctx)
